@@ -14,6 +14,8 @@
   (3) nf_iff_noDefect          `NFRoot t ↔ rootDefect t = none` — the finding classes are the
                                complement of the normal form
   (4) unescape_luceneEscape / unescape_quotedEscape     `unescape` inverts both escapes — all strings
+  (5) parse_never_panics       since /repo 21ebbb7 no query text makes the parser/visitor panic
+                               (before, `f:[1 TO 2}` did)                           — all `q`, all `F`
 
   `F` (float parsing/printing of Rust `core`) is a parameter; no law about it is assumed: the normal
   form asks, per numeric leaf, that the printed number is a `NUMERIC_TERM` / `RANGE_VALUE` converting
@@ -41,6 +43,39 @@ theorem unescape_luceneEscape (s : Str) : unescape (luceneEscape s) = s := Searc
 /-- … and `quoted_escape`. -/
 theorem unescape_quotedEscape (s : Str) : unescape (quotedEscape s) = s := Search.unescape_quotedEscape s
 
+/-! ### (5) no panic -/
+
+theorem visitValue_ok (F : FloatLib) (f : Str) (v : Grammar.PValue) : ∃ n, visitValue F f v = .ok n := by
+  cases v <;> simp only [visitValue] <;> (try split) <;> (try split) <;> exact ⟨_, rfl⟩
+
+mutual
+  theorem visitClause_ok (F : FloatLib) : (c : Grammar.PClause) → (df : Str) → ∃ n, visitClause F c df = .ok n
+    | .matchall, _ => ⟨_, rfl⟩
+    | .value fld v, df => by rw [visitClause]; exact visitValue_ok F _ v
+    | .group fld q, df => by rw [visitClause]; exact visitItems_ok F q _ _ _
+  theorem visitItems_ok (F : FloatLib) : (q : Grammar.PItems) → (df : Str) → (st : VState) → (b : Bool) →
+      ∃ n, visitItems F q df st b = .ok n
+    | .nil, _, _, _ => ⟨_, rfl⟩
+    | .multiterm ts rest, df, st, b => by rw [visitItems]; exact visitItems_ok F rest _ _ _
+    | .clause cj md c rest, df, st, b => by
+      rw [visitItems]
+      obtain ⟨n, hn⟩ := visitClause_ok F c df
+      simp only [hn]
+      exact visitItems_ok F rest _ _ _
+end
+
+/-- (5) The parser never panics (the mixed-bracket panic of `visit_clause` is repaired). -/
+theorem parse_never_panics (F : FloatLib) (q : Str) : parse F q ≠ .panic := by
+  unfold parse
+  split
+  · simp
+  · split
+    · simp
+    · simp
+    · rename_i items _ _
+      obtain ⟨n, hn⟩ := visitItems_ok F items defaultField ⟨[], []⟩ false
+      simp [visitQuery, hn]
+
 /-! ### (3) the defects are the complement of the normal form -/
 
 /-- no flag of the list is raised -/
@@ -59,10 +94,10 @@ theorem clear_append (l1 l2 : List (Bool × Defect)) : clear (l1 ++ l2) = (clear
   simp [clear, List.all_append]
 
 theorem clear_raw (a : Str) :
-    clear [(a.isEmpty, Defect.emptyString), (hasU3000 a, .unicode3000), (!rawTermChars a || kwStart a, .attrUnescaped)] =
+    clear [(a.isEmpty, Defect.emptyString), (!rawTermChars a || kwStart a, .attrUnescaped)] =
       rawTermOK a := by
   simp only [clear_cons, clear_nil, rawTermOK]
-  cases a.isEmpty <;> cases hasU3000 a <;> cases rawTermChars a <;> cases kwStart a <;> rfl
+  cases a.isEmpty <;> cases rawTermChars a <;> cases kwStart a <;> rfl
 
 theorem clear_attr (a : Str) : clear (attrDefects a) = attrOK a := by
   by_cases h : a = defaultField
@@ -71,7 +106,7 @@ theorem clear_attr (a : Str) : clear (attrDefects a) = attrOK a := by
 
 theorem clear_esc (v : Str) : clear (escTermDefects v) = escTermOK v := by
   simp only [escTermDefects, clear_cons, clear_nil, escTermOK]
-  cases v.isEmpty <;> cases hasWs v <;> cases hasU3000 v <;> rfl
+  cases v.isEmpty <;> cases hasBlank v <;> rfl
 
 theorem clear_cmp (F : FloatLib) (cv : CV) : clear (cvDefectsCmp F cv) = cmpValueOK F cv := by
   cases cv with
@@ -98,8 +133,7 @@ theorem clear_leaf (F : FloatLib) (l : Leaf) : clear (leafDefects F l) = NFLeaf 
   | exists_ a => simp only [leafDefects, NFLeaf, clear_raw]
   | missing a => simp only [leafDefects, NFLeaf, clear_raw]
   | range a lo li hi ui =>
-    simp only [leafDefects, NFLeaf, clear_append, clear_attr, clear_range, clear_cons, clear_nil]
-    cases attrOK a <;> cases rangeValueOK F lo <;> cases rangeValueOK F hi <;> cases li <;> cases ui <;> rfl
+    simp only [leafDefects, NFLeaf, clear_append, clear_attr, clear_range, Bool.and_assoc]
   | comparison a c v =>
     simp only [leafDefects, NFLeaf, clear_append, clear_attr, clear_cmp]
   | term a v =>
@@ -114,7 +148,7 @@ theorem clear_leaf (F : FloatLib) (l : Leaf) : clear (leafDefects F l) = NFLeaf 
     cases attrOK a <;> cases escTermOK p <;> cases (decide (a = defaultField) && kwStart p) <;> rfl
   | wildcard a w =>
     simp only [leafDefects, NFLeaf, wildcardOK, clear_append, clear_attr, clear_cons, clear_nil]
-    cases attrOK a <;> cases w.isEmpty <;> cases rawGlobChars w <;> cases hasU3000 w <;>
+    cases attrOK a <;> cases w.isEmpty <;> cases rawGlobChars w <;>
       cases (w.any isGlobChar || kwStart w) <;> cases prefixShape w <;>
       cases (decide (a = defaultField) && (w == ['*'] || kwStart w || qmarkAfterPlain w)) <;> rfl
 
